@@ -52,4 +52,11 @@ def cases(ctx):
     for rom, org in (("low", 0x00FFFD), ("low", 0x80FFFE), ("high", 0x40FFFC), ("high", 0xC1FFFF)):
         out.append({"kind": "bank-cross", "rom": rom, "trace": True, "spec": {"t": "trace"},
                     "src": f"*={org:#08x}\na1:\nlda.l a2\na2:\n.dw a1, a2, a3\na3:\njmp.l a1\na4:\n.dl a4\n"})
+    # one statement carrying over two bank ends: the label after it must still be where the next byte goes
+    big = (("low", 0x00C000, 0xC000), ("low", 0x808000, 0x10000), ("high", 0x40F000, 0x11000))
+    for rom, org, length in (big if tier == "thorough" else big[:1]):
+        blob = [(i * 13) & 0xFF for i in range(length)]
+        for spec in ({"t": "trace"}, {"t": "blocks", "high": rom == "high"}):
+            out.append({"kind": "double-cross", "rom": rom, "trace": True, "spec": spec, "files": {"big.bin": blob},
+                        "src": f"*={org:#08x}\nbefore:\n.incbin 'big.bin'\nafter:\n.dl after, before\nnop\n"})
     return out
